@@ -31,6 +31,7 @@ type Op struct {
 	Name  string   `json:"n,omitempty"`
 	Val   int      `json:"v,omitempty"`
 	Addr  bool     `json:"addr,omitempty"` // store an addressable value
+	Iface int      `json:"iface,omitempty"` // 1: use the interface{} variant of the call; 2: and pass nil
 	Path  []string `json:"path,omitempty"`
 	Stub  int      `json:"stub,omitempty"`
 }
@@ -319,9 +320,15 @@ func (Prop) Gen(seed int64, tier string) *harness.Case {
 				op.Name = "ext0"
 			}
 			op.Addr = r.Intn(2) == 0
+			if r.Intn(3) == 0 {
+				op.Iface = 1 + r.Intn(2)
+			}
 		case "DefineType", "DefineGlobalType", "Type":
 			op.Name = tNames[r.Intn(len(tNames))]
 			op.Val = 1 + r.Intn(len(typePool)-1)
+			if r.Intn(3) == 0 {
+				op.Iface = 1 + r.Intn(2)
+			}
 		case "EnvFromPath":
 			n := r.Intn(4)
 			for j := 0; j < n; j++ {
@@ -372,6 +379,8 @@ func (r *run) descR(v interface{}, err error) string {
 		return "ERR"
 	}
 	switch x := v.(type) {
+	case nil:
+		return "nil"
 	case int:
 		return strconv.Itoa(x)
 	case *env.Env:
@@ -383,9 +392,14 @@ func (r *run) descR(v interface{}, err error) string {
 	return fmt.Sprintf("?%#v", v)
 }
 
+const nilID = -999999
+
 func (r *run) descM(v mval, ok bool) string {
 	if !ok {
 		return "ERR"
+	}
+	if v.id == nilID && v.mod == nil {
+		return "nil"
 	}
 	if v.mod != nil {
 		return fmt.Sprintf("module@%p", v.mod)
@@ -484,9 +498,22 @@ func (r *run) step(op Op) (msg string) {
 		r.scopes = append(r.scopes, pair{mod, mm})
 	case "Define", "DefineGlobal":
 		var err error
-		if op.Kind == "Define" {
+		mv := mval{id: op.Val, addr: op.Addr}
+		var iv interface{} = op.Val
+		if op.Iface == 2 {
+			iv, mv = nil, mval{id: nilID}
+		} else if op.Iface == 1 {
+			mv.addr = false
+		}
+		switch {
+		case op.Kind == "Define" && op.Iface > 0:
+			err = e.Define(op.Name, iv)
+		case op.Kind == "Define":
 			err = e.DefineValue(op.Name, mkVal(op.Val, op.Addr))
-		} else {
+		case op.Iface > 0:
+			err = e.DefineGlobal(op.Name, iv)
+			m = m.root()
+		default:
 			err = e.DefineGlobalValue(op.Name, mkVal(op.Val, op.Addr))
 			m = m.root()
 		}
@@ -497,14 +524,23 @@ func (r *run) step(op Op) (msg string) {
 			return fmt.Sprintf("%+v: error is not ErrSymbolContainsDot: %v", op, err)
 		}
 		if err == nil {
-			m.vals[op.Name] = mval{id: op.Val, addr: op.Addr}
+			m.vals[op.Name] = mv
 		}
 	case "Set":
-		err := e.SetValue(op.Name, mkVal(op.Val, op.Addr))
+		mv := mval{id: op.Val, addr: op.Addr}
+		var err error
+		switch op.Iface {
+		case 2:
+			err, mv = e.Set(op.Name, nil), mval{id: nilID}
+		case 1:
+			err, mv = e.Set(op.Name, op.Val), mval{id: op.Val}
+		default:
+			err = e.SetValue(op.Name, mkVal(op.Val, op.Addr))
+		}
 		found := false
 		for s := m; s != nil; s = s.parent {
 			if _, ok := s.vals[op.Name]; ok {
-				s.vals[op.Name] = mval{id: op.Val, addr: op.Addr}
+				s.vals[op.Name] = mv
 				found = true
 				break
 			}
@@ -524,6 +560,9 @@ func (r *run) step(op Op) (msg string) {
 		want := "ERR"
 		if ok && mv.addr && mv.mod == nil {
 			want = strconv.Itoa(mv.id)
+		}
+		if ok && mv.id == nilID && mv.mod == nil {
+			want = "nil" // env.NilValue is an addressable interface value
 		}
 		got := "ERR"
 		if err == nil {
@@ -550,9 +589,22 @@ func (r *run) step(op Op) (msg string) {
 		delete(s.vals, op.Name)
 	case "DefineType", "DefineGlobalType":
 		var err error
-		if op.Kind == "DefineType" {
+		tname := "T" + strconv.Itoa(op.Val)
+		var targ interface{} = typePool[op.Val] // a reflect.Type
+		if op.Iface == 2 {
+			targ, tname = nil, "<nil>"
+		} else if op.Iface == 1 {
+			targ = reflect.Zero(typePool[op.Val]).Interface() // a value of the type
+		}
+		switch {
+		case op.Kind == "DefineType" && op.Iface > 0:
+			err = e.DefineType(op.Name, targ)
+		case op.Kind == "DefineType":
 			err = e.DefineReflectType(op.Name, typePool[op.Val])
-		} else {
+		case op.Iface > 0:
+			err = e.DefineGlobalType(op.Name, targ)
+			m = m.root()
+		default:
 			err = e.DefineGlobalReflectType(op.Name, typePool[op.Val])
 			m = m.root()
 		}
@@ -560,7 +612,7 @@ func (r *run) step(op Op) (msg string) {
 			return s
 		}
 		if err == nil {
-			m.types[op.Name] = "T" + strconv.Itoa(op.Val)
+			m.types[op.Name] = tname
 		}
 	case "Type":
 		t, err := e.Type(op.Name)
